@@ -182,6 +182,13 @@ def handle2 (op : String) (args : List String) : Option String :=
         | none => "none")
   | _, _ => none
 
+/-- which parameters carry a type-aware setting: `_` none, `all`, `m<k>` every k-th, or a comma list of indices -/
+def parseSel (s : String) : Option (Nat → Bool) :=
+  if s = "_" then some fun _ => false
+  else if s = "all" then some fun _ => true
+  else if s.startsWith "m" then (String.ofList (s.toList.drop 1)).toNat?.map fun k => fun i => k > 0 && i % k == 0
+  else ((s.splitOn ",").mapM String.toNat?).map fun (l : List Nat) => fun i => l.contains i
+
 def handle (op : String) (args : List String) : Option String :=
   match handle2 op args with
   | some r => some r
@@ -305,6 +312,16 @@ def handle (op : String) (args : List String) : Option String :=
       let r : Out Bytes := do
         let (p, _) ← Pg.readClient true s
         let p' ← Pg.replaceParseQuery p q
+        pure (Pg.marshal p')
+      pure (r.render hexOf)
+  -- Parse through `handleClientPacket`: query replaced (or `none`), parameters selected by the rule re-typed to bytea
+  | "pg.parse", [q, sel, s] => do
+      let q ← (if q = "none" then some none else (ofHex q).map some)
+      let sel ← parseSel sel
+      let s ← ofHex s
+      let r : Out Bytes := do
+        let (p, _) ← Pg.readClient true s
+        let p' ← Pg.handleParse p q sel 17
         pure (Pg.marshal p')
       pure (r.render hexOf)
   | "pg.parse.enc", [name, query, oids] => do
